@@ -244,7 +244,16 @@ class SpawnProcess(multiprocessing.context.SpawnProcess):
         # `threading._shutdown_locks_lock`; joining a finished-but-not-yet-joined
         # thread there needs the same lock and deadlocks. A thread that has been
         # joined once is joined again without touching that lock.
-        self._logger_thread_.join()
+        #
+        # Do this only if the child exited by itself. If it was killed by a signal,
+        # it may have died in the middle of writing a log record (or holding the
+        # queue's write lock); then the logger thread never gets to see the end
+        # marker, and waiting for it here would block `join`, `result` and
+        # `exception` forever.
+        while self.exitcode is None:
+            time.sleep(0.001)
+        if self.exitcode >= 0:
+            self._logger_thread_.join()
 
     @staticmethod
     def _finalize(logger_thread, q):
